@@ -226,23 +226,23 @@ struct BaseContiguousParameterTraits
 
     static constexpr auto equal(const cntgs::Span<T>& source, const cntgs::Span<T>& target)
     {
-        return std::equal(Self::begin(source), std::end(source), Self::begin(target));
+        return std::equal(Self::begin(source), std::end(source), Self::begin(target), std::end(target));
     }
 
     static constexpr auto equal(const cntgs::Span<T>& source, const cntgs::Span<std::add_const_t<T>>& target)
     {
-        return std::equal(Self::begin(source), std::end(source), Self::begin(target));
+        return std::equal(Self::begin(source), std::end(source), Self::begin(target), std::end(target));
     }
 
     static constexpr auto equal(const cntgs::Span<std::add_const_t<T>>& source, const cntgs::Span<T>& target)
     {
-        return std::equal(Self::begin(source), std::end(source), Self::begin(target));
+        return std::equal(Self::begin(source), std::end(source), Self::begin(target), std::end(target));
     }
 
     static constexpr auto equal(const cntgs::Span<std::add_const_t<T>>& source,
                                 const cntgs::Span<std::add_const_t<T>>& target)
     {
-        return std::equal(Self::begin(source), std::end(source), Self::begin(target));
+        return std::equal(Self::begin(source), std::end(source), Self::begin(target), std::end(target));
     }
 
     static constexpr auto lexicographical_compare(const cntgs::Span<T>& source, const cntgs::Span<T>& target)
